@@ -424,6 +424,11 @@ func (m *C14) AfterTx(e *eng.Engine, t *eng.TxRec) {
 				m.failedMid++
 			}
 		}
+	} else if multiWithBridge(t) {
+		// a multi-message transaction containing a BridgeReceive: which projects/batches it created
+		// cannot be attributed per message from the pre-state; resynchronise the ghost counters from the
+		// sequence tables (the scan below still checks every id and reference)
+		m.resync(t.Post)
 	} else {
 		pre := t.Pre.V()
 		for i, msg := range t.Msgs {
@@ -476,8 +481,23 @@ func (m *C14) AfterTx(e *eng.Engine, t *eng.TxRec) {
 	m.scan(e, t.Post, where)
 }
 
+func multiWithBridge(t *eng.TxRec) bool {
+	if len(t.Msgs) < 2 {
+		return false
+	}
+	for _, msg := range t.Msgs {
+		if _, ok := msg.(*basetypes.MsgBridgeReceive); ok {
+			return true
+		}
+	}
+	return false
+}
+
 func (m *C14) resync(s *obs.Snapshot) {
 	v := s.V()
+	for k, n := range v.ClassSeq {
+		m.classSeq[k] = n
+	}
 	for k, n := range v.ProjectSeq {
 		if c := v.Classes[k]; c != nil {
 			m.projectSeq[c.Id] = n
